@@ -59,6 +59,16 @@ class StmtMixin:
         if m is None:
             raise Unsupported(f"statement {node.__class__.__name__} at line {node.lineno}")
         self.pending = []
+        if self.call_depth == 0 and self.stmt_asserts:
+            fns = self.stmt_asserts.get(ast.unparse(node).strip())
+            if fns:
+                # contract-level `assert` before this statement: proved here, then known
+                extra = []
+                for n_, fn in enumerate(fns):
+                    fact = self.as_bool(fn(Ctx(self, st, self.entry_state), Vars(st.env)))
+                    self.emit("assert", f"before `{ast.unparse(node).strip()[:40]}`.{n_}", st, fact, hyps_extra=tuple(extra), split=False)
+                    extra.append(fact)
+                st.pc = st.pc + tuple(extra)
         return m(node, st)
 
     # ------------------------------------------------------------------ simple statements
@@ -306,6 +316,11 @@ class StmtMixin:
         if isinstance(test, ast.UnaryOp) and isinstance(test.op, ast.Not):
             a, b = self.narrowing(test.operand, st)
             return b, a
+        nm = test.id if isinstance(test, ast.Name) else (test.target.id if isinstance(test, ast.NamedExpr) else None)
+        if nm is not None:
+            v = st.env.get(nm)
+            if isinstance(v, SOpt):
+                t[nm] = v.val      # truthy => not None
         if isinstance(test, ast.Compare) and len(test.ops) == 1 and isinstance(test.left, ast.Name) \
                 and isinstance(test.comparators[0], ast.Constant) and test.comparators[0].value is None:
             v = st.env.get(test.left.id)
@@ -410,6 +425,9 @@ class StmtMixin:
             return ("indexed", v.n, lambda k: wrap(v.ety, v.a[k]))
         if isinstance(v, Iter):
             return v.view
+        from .values import BitStr, BitChar
+        if isinstance(v, BitStr):
+            return ("indexed", z3.IntVal(v.width), lambda k: BitChar(v.w, v.width - 1 - k))
         if isinstance(v, SSet):
             order = fresh(TList(v.ety), "setorder")
             i, j = z3.Int(fresh_name("i")), z3.Int(fresh_name("j"))
@@ -453,10 +471,17 @@ class StmtMixin:
         hs.pc = hs.pc + (self.as_bool(inv_at(hs, k)),)
         hs.env["__loop_k__"] = k
         self.assign_target(node.target, elem(k), hs)
+        head_env = dict(hs.env)
         body_outs = self.exec_block(node.body, hs) if self.feasible(hs) else []
         for o in body_outs:
             if o.kind in ("normal", "continue"):
-                self.emit("inv.step", spec.label, o.state, inv_at(o.state, k + 1))
+                if spec.hints:
+                    vv = Vars(o.state.env)
+                    vv.head = Vars(head_env)
+                    hs_ = [h(Ctx(self, o.state, self.entry_state), k, vv) for h in spec.hints]
+                    self.emit_with_hints("inv.step", spec.label, o.state, inv_at(o.state, k + 1), hs_)
+                else:
+                    self.emit("inv.step", spec.label, o.state, inv_at(o.state, k + 1))
             elif o.kind == "break":
                 outs.append(Outcome("normal", o.state))
             else:
